@@ -8,6 +8,7 @@ import (
 	"fmt"
 	"strconv"
 	"strings"
+	"sync"
 	"time"
 
 	"github.com/ProtonMail/gluon/db"
@@ -22,19 +23,20 @@ type req struct {
 
 // op is one call of the db interface with harness-level (renamed) arguments.
 type op struct {
-	K                    string
-	Box                  int
-	Ids                  []int
-	Pairs                [][2]int
-	Reqs                 []req
-	Flag                 string
+	K                     string
+	Box                   int
+	Ids                   []int
+	Pairs                 [][2]int
+	Reqs                  []req
+	Flag                  string
 	Flags, Flags2, Flags3 []string
-	B                    bool
-	N1, N2, N3           int
+	B                     bool
+	N1, N2, N3            int
 }
 
 // ids keeps the renaming between harness indices and the real identifiers.
 type idmap struct {
+	mu      sync.Mutex // the maps are also used by concurrent readers (overlap scenarios)
 	seed    int64
 	msgIdx  map[string]int // uuid string -> index
 	extraRm map[string]int // remote ids not of the form r<i> (random ones) -> index
@@ -47,19 +49,25 @@ func newIDMap(seed int64) *idmap {
 
 func (m *idmap) msgID(i int) imap.InternalMessageID {
 	u := uuid.NewMD5(uuid.Nil, []byte(fmt.Sprintf("verif-c08-%d-%d", m.seed, i)))
+	m.mu.Lock()
 	m.msgIdx[u.String()] = i
+	m.mu.Unlock()
 	return imap.InternalMessageID{UUID: u}
 }
 func (m *idmap) msgIndex(id imap.InternalMessageID) int {
+	m.mu.Lock()
+	defer m.mu.Unlock()
 	if i, ok := m.msgIdx[id.String()]; ok {
 		return i
 	}
 	return -1
 }
-func remoteID(i int) imap.MessageID     { return imap.MessageID("r" + strconv.Itoa(i)) }
-func mboxRemote(i int) imap.MailboxID   { return imap.MailboxID("mb" + strconv.Itoa(i)) }
-func mboxName(i int) string             { return "n" + strconv.Itoa(i) }
+func remoteID(i int) imap.MessageID   { return imap.MessageID("r" + strconv.Itoa(i)) }
+func mboxRemote(i int) imap.MailboxID { return imap.MailboxID("mb" + strconv.Itoa(i)) }
+func mboxName(i int) string           { return "n" + strconv.Itoa(i) }
 func (m *idmap) remoteIndex(s string) int {
+	m.mu.Lock()
+	defer m.mu.Unlock()
 	if strings.HasPrefix(s, "r") {
 		if n, err := strconv.Atoi(s[1:]); err == nil {
 			return n
@@ -123,18 +131,25 @@ func flagSetSlice(fs imap.FlagSet) []string {
 	return fs.ToSlice()
 }
 
-func stripPerMailbox(fs imap.FlagSet, deleted, recent bool) []string {
-	var out []string
-	for _, f := range flagSetSlice(fs) {
-		if deleted && strings.EqualFold(f, imap.FlagDeleted) {
-			continue
-		}
-		if recent && strings.EqualFold(f, imap.FlagRecent) {
-			continue
-		}
-		out = append(out, f)
+// rowFlags returns the message flags of a returned row exactly as stored (the Flags column joined with db.FlagsSeparator)
+// and checks that GetFlagSet() is that set plus \Deleted / \Recent exactly when the row says so.
+func rowFlags(raw string, fs imap.FlagSet, deleted, recent bool) ([]string, error) {
+	var stored []string
+	if raw != "" {
+		stored = strings.Split(raw, db.FlagsSeparator)
 	}
-	return out
+	want := append([]string{}, stored...)
+	if deleted {
+		want = append(want, imap.FlagDeleted)
+	}
+	if recent {
+		want = append(want, imap.FlagRecent)
+	}
+	w, g := normFlags(want), normFlags(flagSetSlice(fs))
+	if strings.Join(w, " ") != strings.Join(g, " ") {
+		return nil, fmt.Errorf("GetFlagSet() = %q but the row has flags %q deleted=%v recent=%v", g, stored, deleted, recent)
+	}
+	return stored, nil
 }
 
 var writeOnly = map[string]bool{
@@ -163,8 +178,11 @@ func (m *idmap) execOp(ctx context.Context, rd db.ReadOnly, tx db.Transaction, o
 		out := res{K: "snap"}
 		for i := range rows {
 			r := &rows[i]
-			out.Snap = append(out.Snap, snapRow{int(r.UID), m.msgIndex(r.InternalID), m.remoteIndex(string(r.RemoteID)), r.Deleted, r.Recent,
-				stripPerMailbox(r.GetFlagSet(), r.Deleted, r.Recent)})
+			fl, ferr := rowFlags(r.Flags, r.GetFlagSet(), r.Deleted, r.Recent)
+			if ferr != nil {
+				return res{K: "inconsistent", Fl: []string{ferr.Error()}}, nil
+			}
+			out.Snap = append(out.Snap, snapRow{int(r.UID), m.msgIndex(r.InternalID), m.remoteIndex(string(r.RemoteID)), r.Deleted, r.Recent, fl})
 		}
 		return out, nil
 	case "RemoveMessages":
@@ -254,11 +272,11 @@ func (m *idmap) execOp(ctx context.Context, rd db.ReadOnly, tx db.Transaction, o
 	case "UpdateRemoteMailboxID":
 		return rUnit(), tx.UpdateRemoteMailboxID(ctx, box, mboxRemote(o.N1))
 	case "CreateMessageAndAdd":
-		uid, _, err := tx.CreateMessageAndAddToMailbox(ctx, box, m.createReq(o.Reqs[0]))
+		uid, fs, err := tx.CreateMessageAndAddToMailbox(ctx, box, m.createReq(o.Reqs[0]))
 		if err != nil {
 			return res{}, err
 		}
-		return rNum(int(uid)), nil
+		return res{K: "uidflags", N: int(uid), Fl: flagSetSlice(fs)}, nil
 	case "MarkDeleted":
 		return rUnit(), tx.MarkMessageAsDeleted(ctx, m.msgID(o.N1))
 	case "MarkDeletedRemote":
@@ -270,7 +288,9 @@ func (m *idmap) execOp(ctx context.Context, rd db.ReadOnly, tx db.Transaction, o
 		// learn the random remote id and rename it to the index the harness chose
 		rid, err := tx.GetMessageRemoteID(ctx, m.msgID(o.N1))
 		if err == nil && strings.HasPrefix(string(rid), "DELETED-") {
+			m.mu.Lock()
 			m.extraRm[string(rid)] = o.N2
+			m.mu.Unlock()
 		}
 		return rUnit(), nil
 	case "UpdateRemoteMessageID":
@@ -433,8 +453,11 @@ func (m *idmap) execOp(ctx context.Context, rd db.ReadOnly, tx db.Transaction, o
 				return res{}, fmt.Errorf("snapshot rows not in ascending UID order: %d after %d", r.UID, last)
 			}
 			last = int(r.UID)
-			out.Snap = append(out.Snap, snapRow{int(r.UID), m.msgIndex(r.InternalID), m.remoteIndex(string(r.RemoteID)), r.Deleted, r.Recent,
-				stripPerMailbox(r.GetFlagSet(), r.Deleted, r.Recent)})
+			fl, ferr := rowFlags(r.Flags, r.GetFlagSet(), r.Deleted, r.Recent)
+			if ferr != nil {
+				return res{K: "inconsistent", Fl: []string{ferr.Error()}}, nil
+			}
+			out.Snap = append(out.Snap, snapRow{int(r.UID), m.msgIndex(r.InternalID), m.remoteIndex(string(r.RemoteID)), r.Deleted, r.Recent, fl})
 		}
 		return out, nil
 	case "MessageExists":
